@@ -122,3 +122,209 @@ pub proof fn wks_blocks(k: KStep, ka: KAbs, blocks: Seq<Blk>, b: nat)
         flatg_push(xor_blocks(hd, rh.1), xor_seq(lastb, s.1));
     }
 }
+
+// ---------------------------------------------------------------- seeking (C10)
+pub open spec fn step_law(k: KStep, m: int) -> bool {
+    forall |a: KAbs| (#[trigger] k(a)).0 == (KAbs { base: a.base, pos: (a.pos + 1) % m })
+}
+pub open spec fn zeros(n: nat) -> Seq<u8> { Seq::new(n, |i: int| 0u8) }
+
+// the wrapper state (core state, buffered bytes) at byte offset p of the keystream that starts at origin `o`
+pub open spec fn wseek_state(k: KStep, o: KAbs, m: int, bs: int, p: int) -> (KAbs, Seq<u8>) {
+    let a = KAbs { base: o.base, pos: (o.pos + p / bs) % m };
+    if p % bs == 0 { (a, Seq::<u8>::empty()) } else { (k(a).0, k(a).1.skip(p % bs)) }
+}
+
+pub proof fn ks_run_pos(k: KStep, a: KAbs, n: nat, m: int)
+    requires step_law(k, m), m > 0, 0 <= a.pos < m
+    ensures ks_run(k, a, n).0 == (KAbs { base: a.base, pos: (a.pos + n) % m })
+    decreases n
+{
+    if n == 0 {
+        vstd::arithmetic::div_mod::lemma_small_mod(a.pos as nat, m as nat);
+    } else {
+        ks_run_pos(k, a, (n - 1) as nat, m);
+        ks_run_step(k, a, (n - 1) as nat);
+        let r = ks_run(k, a, (n - 1) as nat);
+        assert(k(r.0).0 == (KAbs { base: r.0.base, pos: (r.0.pos + 1) % m }));
+        mod_succ(a.pos + n - 1, m);
+    }
+}
+
+// the state after a data call does not depend on the data, only on its length
+pub proof fn wks_state_indep(k: KStep, ka: KAbs, buf: Seq<u8>, d1: Seq<u8>, d2: Seq<u8>)
+    requires d1.len() == d2.len()
+    ensures wks_run(k, ka, buf, d1).0 == wks_run(k, ka, buf, d2).0, wks_run(k, ka, buf, d1).1 == wks_run(k, ka, buf, d2).1
+    decreases d1.len()
+{
+    if d1.len() > 0 {
+        if buf.len() > 0 { wks_state_indep(k, ka, buf.skip(1), d1.skip(1), d2.skip(1)); }
+        else { let s = k(ka); wks_state_indep(k, s.0, s.1.skip(1), d1.skip(1), d2.skip(1)); }
+    }
+}
+
+// the output is the data XOR the keystream (= the output on zeros)
+pub proof fn wks_xor_zero(k: KStep, ka: KAbs, buf: Seq<u8>, d: Seq<u8>)
+    ensures wks_run(k, ka, buf, d).2 == xor_seq(d, wks_run(k, ka, buf, zeros(d.len())).2)
+    decreases d.len()
+{
+    let z = zeros(d.len());
+    wks_len(k, ka, buf, z);
+    if d.len() == 0 {
+        assert(xor_seq(d, wks_run(k, ka, buf, z).2) =~= Seq::<u8>::empty());
+    } else {
+        assert(z.skip(1) =~= zeros((d.len() - 1) as nat));
+        assert(z[0] == 0u8);
+        if buf.len() > 0 {
+            wks_xor_zero(k, ka, buf.skip(1), d.skip(1));
+            let r = wks_run(k, ka, buf.skip(1), d.skip(1));
+            let rz = wks_run(k, ka, buf.skip(1), z.skip(1));
+            wks_len(k, ka, buf.skip(1), z.skip(1));
+            let bb = buf[0];
+            assert(0u8 ^ bb == bb) by (bit_vector);
+            assert(seq![d[0] ^ buf[0]] + xor_seq(d.skip(1), rz.2) =~= xor_seq(d, seq![buf[0]] + rz.2));
+        } else {
+            let s = k(ka);
+            wks_xor_zero(k, s.0, s.1.skip(1), d.skip(1));
+            let rz = wks_run(k, s.0, s.1.skip(1), z.skip(1));
+            wks_len(k, s.0, s.1.skip(1), z.skip(1));
+            let b0 = s.1[0];
+            assert(0u8 ^ b0 == b0) by (bit_vector);
+            assert(seq![d[0] ^ b0] + xor_seq(d.skip(1), rz.2) =~= xor_seq(d, seq![b0] + rz.2));
+        }
+    }
+}
+
+pub open spec fn zero_blocks(n: nat, b: nat) -> Seq<Blk> { Seq::new(n, |i: int| zeros(b)) }
+
+pub proof fn flatg_zero_blocks(n: nat, b: nat)
+    ensures flatg(zero_blocks(n, b)) == zeros(n * b)
+    decreases n
+{
+    if n == 0 {
+        assert(flatg(zero_blocks(0, b)) =~= Seq::<u8>::empty());
+        assert(0 * b == 0) by (nonlinear_arith);
+        assert(zeros(0) =~= Seq::<u8>::empty());
+    } else {
+        flatg_zero_blocks((n - 1) as nat, b);
+        assert(zero_blocks(n, b).drop_last() =~= zero_blocks((n - 1) as nat, b));
+        assert((n - 1) * b + b == n * b) by (nonlinear_arith);
+        assert((n - 1) * b >= 0) by (nonlinear_arith) requires n >= 1;
+        assert(zeros(((n - 1) * b) as nat) + zeros(b) =~= zeros(n * b));
+    }
+}
+
+// C10: the state installed by a seek to byte offset p is the state reached by producing p bytes from offset 0
+pub proof fn wseek_is_run(k: KStep, o: KAbs, m: int, bs: nat, p: nat)
+    requires
+        step_law(k, m), m > 0, 0 <= o.pos < m, bs >= 1,
+        forall |a: KAbs| (#[trigger] k(a)).1.len() == bs,
+    ensures ({
+        let r = wks_run(k, o, Seq::empty(), zeros(p));
+        (r.0, r.1) == wseek_state(k, o, m, bs as int, p as int)
+    })
+{
+    let q = p / bs;
+    let t = p % bs;
+    vstd::arithmetic::div_mod::lemma_fundamental_div_mod(p as int, bs as int);
+    assert(q * bs == bs * q) by (nonlinear_arith);
+    assert(q * bs >= 0) by (nonlinear_arith) requires q >= 0;
+    let zb = zero_blocks(q, bs);
+    flatg_zero_blocks(q, bs);
+    assert(zeros(p) =~= zeros(q * bs) + zeros(t));
+    wks_blocks(k, o, zb, bs);
+    wks_concat(k, o, Seq::empty(), flatg(zb), zeros(t));
+    ks_run_pos(k, o, q, m);
+    let a = ks_run(k, o, q).0;
+    if t > 0 { wks_partial(k, a, zeros(t)); }
+}
+
+// ... and therefore the bytes produced after seek(p) are bytes p, p+1, ... of the keystream from offset 0
+pub proof fn wseek_keystream(k: KStep, o: KAbs, m: int, bs: nat, p: nat, d: Seq<u8>)
+    requires
+        step_law(k, m), m > 0, 0 <= o.pos < m, bs >= 1,
+        forall |a: KAbs| (#[trigger] k(a)).1.len() == bs,
+    ensures ({
+        let st = wseek_state(k, o, m, bs as int, p as int);
+        let ks = wks_run(k, o, Seq::empty(), zeros(p + d.len())).2;
+        wks_run(k, st.0, st.1, d).2 == xor_seq(d, ks.skip(p as int))
+    })
+{
+    wseek_is_run(k, o, m, bs, p);
+    let st = wseek_state(k, o, m, bs as int, p as int);
+    wks_xor_zero(k, st.0, st.1, d);
+    wks_concat(k, o, Seq::empty(), zeros(p), zeros(d.len()));
+    assert(zeros(p) + zeros(d.len()) =~= zeros(p + d.len()));
+    let r1 = wks_run(k, o, Seq::empty(), zeros(p));
+    wks_len(k, o, Seq::empty(), zeros(p));
+    let r2 = wks_run(k, r1.0, r1.1, zeros(d.len()));
+    assert((r1.2 + r2.2).skip(p as int) =~= r2.2);
+}
+
+// the byte position a wrapper reports, as a function of its state: blocks generated since the origin times the
+// block size, minus the bytes still buffered
+pub open spec fn spos_of(a: KAbs, o: KAbs, m: int, bs: int, nbuf: int) -> int { ((a.pos - o.pos) % m) * bs - nbuf }
+
+pub proof fn mod_diff(o: int, q: int, m: int)
+    requires 0 <= o < m, 0 <= q < m
+    ensures (((o + q) % m) - o) % m == q
+{
+    mod_add_wrap(o, q, m);
+    if o + q < m {
+        vstd::arithmetic::div_mod::lemma_small_mod(q as nat, m as nat);
+    } else {
+        vstd::arithmetic::div_mod::lemma_mod_add_multiples_vanish(q - m, m);
+        vstd::arithmetic::div_mod::lemma_small_mod(q as nat, m as nat);
+    }
+}
+
+// C10: at the state a seek to p installs, the reported position is p (p inside the usable keystream)
+pub proof fn wseek_pos(k: KStep, o: KAbs, m: int, bs: nat, p: nat)
+    requires
+        step_law(k, m), m > 0, 0 <= o.pos < m, bs >= 1,
+        forall |a: KAbs| (#[trigger] k(a)).1.len() == bs,
+        p / bs + 1 < m,
+    ensures ({
+        let st = wseek_state(k, o, m, bs as int, p as int);
+        spos_of(st.0, o, m, bs as int, st.1.len() as int) == p
+    })
+{
+    let q = (p / bs) as int;
+    let t = (p % bs) as int;
+    vstd::arithmetic::div_mod::lemma_fundamental_div_mod(p as int, bs as int);
+    vstd::arithmetic::div_mod::lemma_mod_bound(p as int, bs as int);
+    assert(q >= 0) by { vstd::arithmetic::div_mod::lemma_div_pos_is_pos(p as int, bs as int); }
+    let a = KAbs { base: o.base, pos: (o.pos + q) % m };
+    if t == 0 {
+        mod_diff(o.pos, q, m);
+        assert(bs * q == q * bs) by (nonlinear_arith);
+    } else {
+        assert(k(a).0 == (KAbs { base: a.base, pos: (a.pos + 1) % m }));
+        mod_succ(o.pos + q, m);
+        mod_diff(o.pos, q + 1, m);
+        assert((q + 1) * bs - (bs - t) == bs * q + t) by (nonlinear_arith);
+    }
+}
+
+// C10: after any data call from the state at offset p the wrapper is in the state at offset p + n, so the
+// reported position is p + n (by induction: after any interleaving of seeks and data calls)
+pub proof fn wpos_after_run(k: KStep, o: KAbs, m: int, bs: nat, p: nat, d: Seq<u8>)
+    requires
+        step_law(k, m), m > 0, 0 <= o.pos < m, bs >= 1,
+        forall |a: KAbs| (#[trigger] k(a)).1.len() == bs,
+        (p + d.len()) / bs + 1 < m,
+    ensures ({
+        let st = wseek_state(k, o, m, bs as int, p as int);
+        let r = wks_run(k, st.0, st.1, d);
+        (r.0, r.1) == wseek_state(k, o, m, bs as int, (p + d.len()) as int) && spos_of(r.0, o, m, bs as int, r.1.len() as int) == p + d.len()
+    })
+{
+    let n = d.len();
+    wseek_is_run(k, o, m, bs, p);
+    wseek_is_run(k, o, m, bs, p + n);
+    wks_concat(k, o, Seq::empty(), zeros(p), zeros(n));
+    assert(zeros(p) + zeros(n) =~= zeros(p + n));
+    let st = wseek_state(k, o, m, bs as int, p as int);
+    wks_state_indep(k, st.0, st.1, d, zeros(n));
+    wseek_pos(k, o, m, bs, p + n);
+}
